@@ -84,7 +84,10 @@ func held(rb *vh.SegmentReadBuffers) map[uint32]bool {
 	return r
 }
 
-type item struct{ m, s int } // message index, segment index
+type item struct {
+	M int `json:"msg"` // message index
+	S int `json:"seg"` // segment index
+}
 
 func hx(b []byte) string {
 	if len(b) > 48 {
@@ -107,7 +110,7 @@ type feedStats struct{ receives, handed, handedBytes int64 }
 
 func feedJudge(rb *vh.SegmentReadBuffers, msgs []message, order []item, got []int, st *feedStats, ctx func() map[string]any) *vrun.Result {
 	for step, it := range order {
-		seg := msgs[it.m].segs[it.s]
+		seg := msgs[it.M].segs[it.S]
 		m, ok, err, pan := recvSafe(rb, seg)
 		st.receives++
 		if pan != nil {
@@ -116,8 +119,8 @@ func feedJudge(rb *vh.SegmentReadBuffers, msgs []message, order []item, got []in
 			v := vrun.Violation("Receive panics on a well-formed segment", "reassembly:panic-on-wellformed-segment", w)
 			return &v
 		}
-		got[it.m]++
-		complete := got[it.m] == len(msgs[it.m].segs)
+		got[it.M]++
+		complete := got[it.M] == len(msgs[it.M].segs)
 		if ok {
 			st.handed++
 			st.handedBytes += int64(len(m))
@@ -126,7 +129,7 @@ func feedJudge(rb *vh.SegmentReadBuffers, msgs []message, order []item, got []in
 		case ok && !complete:
 			w := ctx()
 			w["step"], w["order"] = step, order[:step+1]
-			w["handed_up"], w["segments_received_of_that_message"], w["segments_total"] = hx(m), got[it.m], len(msgs[it.m].segs)
+			w["handed_up"], w["segments_received_of_that_message"], w["segments_total"] = hx(m), got[it.M], len(msgs[it.M].segs)
 			kind := "partial-or-mixed"
 			for _, o := range msgs {
 				if bytes.Equal(o.data, m) && len(o.data) > 0 {
@@ -140,10 +143,10 @@ func feedJudge(rb *vh.SegmentReadBuffers, msgs []message, order []item, got []in
 			w["step"], w["order"], w["err"] = step, order[:step+1], fmt.Sprint(err)
 			v := vrun.Violation("all segments of a message are in and nothing is handed up", "reassembly:complete-not-handed-up", w)
 			return &v
-		case ok && complete && !bytes.Equal(m, msgs[it.m].data):
+		case ok && complete && !bytes.Equal(m, msgs[it.M].data):
 			w := ctx()
 			w["step"], w["order"] = step, order[:step+1]
-			w["handed_up"], w["original"] = hx(m), hx(msgs[it.m].data)
+			w["handed_up"], w["original"] = hx(m), hx(msgs[it.M].data)
 			v := vrun.Violation("the bytes handed up differ from the original message", "reassembly:bytes-differ", w)
 			return &v
 		}
@@ -314,7 +317,7 @@ func runExhaustive(c *vrun.Case, ec exCase, P int) vrun.Result {
 	}
 	sums := make([]uint64, 0, total)
 	for _, it := range items {
-		sums = append(sums, hash64(msgs[it.m].segs[it.s]))
+		sums = append(sums, hash64(msgs[it.M].segs[it.S]))
 	}
 	perm := make([]int, total)
 	for i := range perm {
@@ -348,7 +351,7 @@ func runExhaustive(c *vrun.Case, ec exCase, P int) vrun.Result {
 		}
 	}
 	for i, it := range items {
-		if hash64(msgs[it.m].segs[it.s]) != sums[i] {
+		if hash64(msgs[it.M].segs[it.S]) != sums[i] {
 			return vrun.Violation("Receive modified a datagram it was given", "reassembly:input-modified", desc)
 		}
 	}
@@ -375,6 +378,9 @@ func runExhaustive(c *vrun.Case, ec exCase, P int) vrun.Result {
 	return res
 }
 
+// the enumeration is CPU bound and the cases are independent (the payload size is set once per process)
+const exhaustivePar = 14
+
 const ruleExhaustive = "Case = a tuple of 1..3 message lengths (every length yielding 1..6 segments for single messages; every ordered tuple of " +
 	"segment counts 1..6 with at most T segments in flight, in the variants smallest/exact-multiple, largest, middle, mixed) and a sequence-number base " +
 	"(0, 1, 2^31-1, 2^32-3..2^32-1 so that tuples straddle the wrap). The library's SendTo produces the segments; ALL permutations of the union of the " +
@@ -392,11 +398,11 @@ func TestC14ExhaustiveSmall(t *testing.T) {
 	const P = 4
 	restore := vh.SegmentSetMaxPayloadSize(P) // once for the whole process, before any case runs
 	defer restore()
-	cases := exhaustiveCases(P, e.Pick(8, 9), true)
+	cases := exhaustiveCases(P, e.Pick(9, 10), true)
 	meta := vrun.Meta{Property: "C14", Workload: "TestC14ExhaustiveSmall", Total: len(cases), Exhaustive: true,
-		Rule:        "payload size 4 bytes, T=" + fmt.Sprint(e.Pick(8, 9)) + ". " + ruleExhaustive,
+		Rule:        "payload size 4 bytes, T=" + fmt.Sprint(e.Pick(9, 10)) + ". " + ruleExhaustive,
 		Assumptions: assumeCommon}
-	vrun.Loop(t, meta, 0, func(c *vrun.Case) vrun.Result {
+	vrun.Loop(t, meta, exhaustivePar, func(c *vrun.Case) vrun.Result {
 		if vh.SegmentMaxPayloadSize() != P {
 			return vrun.Inconcl("payload size override not in force")
 		}
@@ -407,11 +413,11 @@ func TestC14ExhaustiveSmall(t *testing.T) {
 func TestC14ExhaustiveReal(t *testing.T) {
 	e := vrun.LoadEnv()
 	P := vh.SegmentMaxPayloadSize()
-	cases := exhaustiveCases(P, e.Pick(7, 8), false)
+	cases := exhaustiveCases(P, e.Pick(8, 9), false)
 	meta := vrun.Meta{Property: "C14", Workload: "TestC14ExhaustiveReal", Total: len(cases), Exhaustive: true,
-		Rule: "the library's real payload size (1188 bytes), T=" + fmt.Sprint(e.Pick(7, 8)) + "; single messages: smallest, smallest+1, middle, largest length for each of 1..6 segments. " + ruleExhaustive,
+		Rule: "the library's real payload size (1188 bytes), T=" + fmt.Sprint(e.Pick(8, 9)) + "; single messages: smallest, smallest+1, middle, largest length for each of 1..6 segments. " + ruleExhaustive,
 		Assumptions: assumeCommon}
-	vrun.Loop(t, meta, 0, func(c *vrun.Case) vrun.Result {
+	vrun.Loop(t, meta, exhaustivePar, func(c *vrun.Case) vrun.Result {
 		if P != realPayload {
 			return vrun.Violation("the segment payload size is not 1196-8", "sender:payload-size-changed", map[string]any{"payload_size": P})
 		}
@@ -429,7 +435,7 @@ func TestC14Sampled(t *testing.T) {
 	payloadSizes := []int{1, 2, 3, 4, 5, 7, 8, 16, 64, 255, realPayload}
 	meta := vrun.Meta{Property: "C14", Workload: "TestC14Sampled", Total: total,
 		Rule: "Case = payload size from {1,2,3,4,5,7,8,16,64,255,1188(real)} (cases run sequentially because the override is a package variable), 1..5 messages with lengths from the classes " +
-			"{0,1,P-1,P,P+1,k*P-1,k*P,k*P+1 for random k, the largest accepted length 65536*P-1 (65536 segments), 65535*P (65535 segments+empty tail), random}, sequence numbers around 2^32-1 -> 0 or random, " +
+			"{0,1,P-1,P,P+1,k*P-1,k*P,k*P+1 for random k, 65535*P-1 and 65534*P (both 65535 segments; exactly 65536 segments is TestC14SegmentLimit), random}, sequence numbers around 2^32-1 -> 0 or random, " +
 			"arrival order from {in order, reversed, shuffled, round-robin interleave, message-by-message reversed} and loss from {none, first, last, one random, random 10%, random 50%, a whole message}. " +
 			"Every Receive call is judged as in the exhaustive workload. Non-trivial: at least one message of >= 2 segments was completed and handed up exactly, or a lossy multi-segment message was withheld to the end; " +
 			"distinct: (payload size, length classes, order, loss).",
@@ -464,10 +470,11 @@ func TestC14Sampled(t *testing.T) {
 			k := 2 + r.Intn(maxK)
 			switch pick := r.Intn(12); {
 			case big && i == 0 && P <= 64:
-				if r.Intn(2) == 0 {
-					l, cl = 65536*P-1, "limit:65536P-1"
+				// 65535 segments (maxIdx 65534). Messages of exactly 65536 segments live in TestC14SegmentLimit.
+				if r.Intn(2) == 0 || P == 1 {
+					l, cl = 65535*P-1, "limit:65535P-1"
 				} else {
-					l, cl = 65535*P, "limit:65535P"
+					l, cl = 65534*P, "limit:65534P"
 				}
 			case pick == 0:
 				l, cl = 0, "0"
@@ -620,8 +627,8 @@ func TestC14Sampled(t *testing.T) {
 		res.AddSet("loss", lossKind)
 		res.AddSet("length_class", classes...)
 		res.AddSet("messages_in_flight", fmt.Sprint(nm))
-		if maxSegs == 65536 {
-			res.AddSet("segment_limit_reached", fmt.Sprintf("P=%d", P))
+		if maxSegs == 65535 {
+			res.AddSet("65535_segment_message", fmt.Sprintf("P=%d", P))
 		}
 		if wrap {
 			res.AddSet("wrap_first_seq", fmt.Sprint(seq))
@@ -634,6 +641,14 @@ func TestC14Sampled(t *testing.T) {
 // oversize
 // ---------------------------------------------------------------------------------------------------
 
+func fillCheap(data []byte, seed int64) {
+	x := uint32(seed)
+	for i := 0; i+4 <= len(data); i += 4 {
+		x = x*1664525 + 1013904223
+		binary.LittleEndian.PutUint32(data[i:], x)
+	}
+}
+
 func TestC14Oversize(t *testing.T) {
 	e := vrun.LoadEnv()
 	type oc struct {
@@ -645,10 +660,8 @@ func TestC14Oversize(t *testing.T) {
 	var cases []oc
 	for _, P := range []int{1, 2, 3, 4, 8, 16} {
 		cases = append(cases,
+			oc{P, "65534P", func(P int) int { return 65534 * P }, "accept"},
 			oc{P, "65535P-1", func(P int) int { return 65535*P - 1 }, "accept"},
-			oc{P, "65535P", func(P int) int { return 65535 * P }, "accept"},
-			oc{P, "65535P+1", func(P int) int { return 65535*P + 1 }, "either"},
-			oc{P, "65536P-1", func(P int) int { return 65536*P - 1 }, "either"},
 			oc{P, "65536P", func(P int) int { return 65536 * P }, "either"},
 			oc{P, "65536P+1", func(P int) int { return 65536*P + 1 }, "refuse"},
 			oc{P, "65537P-1", func(P int) int { return 65537*P - 1 }, "refuse"},
@@ -667,18 +680,17 @@ func TestC14Oversize(t *testing.T) {
 	)
 	if e.Thorough() {
 		cases = append(cases,
-			oc{realPayload, "65535P", func(P int) int { return 65535 * P }, "accept"},
-			oc{realPayload, "65536P-1", func(P int) int { return 65536*P - 1 }, "either"},
+			oc{realPayload, "65535P-1", func(P int) int { return 65535*P - 1 }, "accept"},
 			oc{realPayload, "131073P+1", func(P int) int { return 131073*P + 1 }, "refuse"},
 		)
 	}
 	meta := vrun.Meta{Property: "C14", Workload: "TestC14Oversize", Total: len(cases), Exhaustive: true,
-		Rule: "Case = (payload size P, boundary length). Lengths needing more than 65536 segments under ANY split (len > 65536*P) must be refused by SendTo with an error; " +
-			"lengths needing at most 65535 segments must be accepted and reassemble exactly (fed in reverse order); the band 65535*P < len <= 65536*P is not judged for accept/refuse, " +
-			"only for consistency (accepted => reassembles exactly; refused => whatever was sent never yields a message). Non-trivial: every case; distinct: (P, length).",
+		Rule: "Case = (payload size P from {1,2,3,4,8,16,1188}, boundary length). Lengths needing more than 65536 segments under ANY split (len > 65536*P) must be refused by SendTo with an error; " +
+			"lengths that the library splits into at most 65535 segments must be accepted and reassemble exactly (fed in reverse order); len = 65536*P is not judged for accept/refuse, " +
+			"only for consistency (accepted => reassembles exactly; refused => whatever was sent never yields a message). Messages of exactly 65536 segments: see TestC14SegmentLimit. Non-trivial: every case; distinct: (P, length).",
 		Assumptions: append([]string{
 			"'refused at the sender' is read as: SendTo returns an error and whatever datagrams it emitted before the error never produce a message at a receiver (the number emitted is recorded, not judged)",
-			"the boundary band 65535*P < len <= 65536*P (the header can number 65536 segments, the library's split appends an empty tail segment to exact multiples) is not judged for accept/refuse",
+			"len = 65536*P (65536 segments under an ideal split, 65537 under the library's split which appends an empty tail segment to exact multiples) is not judged for accept/refuse",
 		}, assumeCommon...)}
 	vrun.Loop(t, meta, 1, func(c *vrun.Case) vrun.Result {
 		oc := cases[c.Index]
@@ -691,12 +703,7 @@ func TestC14Oversize(t *testing.T) {
 		}
 		l := oc.len(oc.P)
 		data := make([]byte, l)
-		// cheap non-constant content
-		x := uint32(c.Seed)
-		for i := 0; i+4 <= l; i += 4 {
-			x = x*1664525 + 1013904223
-			binary.LittleEndian.PutUint32(data[i:], x)
-		}
+		fillCheap(data, c.Seed)
 		seq := uint32(c.Seed)
 		m, err := split(seq, data)
 		w := map[string]any{"payload_size": oc.P, "len": l, "class": oc.name, "datagrams_emitted": len(m.segs), "err": fmt.Sprint(err)}
@@ -743,6 +750,105 @@ func TestC14Oversize(t *testing.T) {
 	})
 }
 
+// TestC14SegmentLimit: messages that the library's SendTo splits into exactly 65536 segments (maxIdx = 65535, the
+// largest value the 16-bit header field can carry): 65535*P <= len <= 65536*P-1. len = 65535*P is "the 65535-segment
+// limit" of the statement's quantifier (an exact multiple of the payload). Whatever SendTo accepts must reassemble.
+// Own workload: the unchanged library fails here.
+func TestC14SegmentLimit(t *testing.T) {
+	e := vrun.LoadEnv()
+	type lc struct {
+		P     int
+		name  string
+		l     int
+		order string
+	}
+	var cases []lc
+	ps := []int{1, 2, 3, 4, 8, 16}
+	for _, P := range ps {
+		seen := map[int]bool{}
+		for _, x := range []struct {
+			n string
+			l int
+		}{{"65535P", 65535 * P}, {"65535P+1", 65535*P + 1}, {"65536P-1", 65536*P - 1}} {
+			if x.l >= 65536*P || seen[x.l] {
+				continue
+			}
+			seen[x.l] = true
+			for _, o := range []string{"in-order", "reversed", "shuffled"} {
+				cases = append(cases, lc{P, x.n, x.l, o})
+			}
+		}
+	}
+	cases = append(cases, lc{realPayload, "65535P", 65535 * realPayload, "in-order"})
+	if e.Thorough() {
+		cases = append(cases, lc{realPayload, "65536P-1", 65536*realPayload - 1, "reversed"}, lc{realPayload, "65535P+1", 65535*realPayload + 1, "shuffled"})
+	}
+	meta := vrun.Meta{Property: "C14", Workload: "TestC14SegmentLimit", Total: len(cases), Exhaustive: true,
+		Rule: "Case = (payload size P from {1,2,3,4,8,16,1188}, length from {65535*P, 65535*P+1, 65536*P-1} = exactly 65536 segments under the library's split, arrival in order / reversed / shuffled, no loss). " +
+			"Judged: if SendTo accepts the message (no error) the receiver must hand up exactly the original bytes with the last segment and nothing before; if SendTo refuses it nothing may be delivered. " +
+			"Non-trivial: every case; distinct: (P, length, order).",
+		Assumptions: append([]string{
+			"a message of 65535*P bytes is within the statement's '65535-segment limit'; for 65535*P < len < 65536*P the statement leaves open whether the message is oversized, so only consistency is judged: accepted => reassembled, refused => nothing delivered",
+		}, assumeCommon...)}
+	vrun.Loop(t, meta, 1, func(c *vrun.Case) vrun.Result {
+		lc := cases[c.Index]
+		if lc.P != realPayload {
+			restore := vh.SegmentSetMaxPayloadSize(lc.P)
+			defer restore()
+		}
+		if vh.SegmentMaxPayloadSize() != lc.P {
+			return vrun.Inconcl("payload size override not in force")
+		}
+		data := make([]byte, lc.l)
+		fillCheap(data, c.Seed)
+		m, err := split(uint32(c.Seed), data)
+		w := map[string]any{"payload_size": lc.P, "len": lc.l, "class": lc.name, "order": lc.order, "datagrams_emitted": len(m.segs), "SendTo_err": fmt.Sprint(err)}
+		rb := newBuffers(10 * time.Second)
+		res := vrun.Hold(fmt.Sprintf("P=%d %s %s", lc.P, lc.name, lc.order), true)
+		res.Desc = w
+		if err != nil {
+			if lc.name == "65535P" {
+				return vrun.Violation("a message of exactly 65535 payloads (the 65535-segment limit) is refused by SendTo", "limit:65535P-refused", w)
+			}
+			for _, sg := range m.segs {
+				if _, ok, _, pan := recvSafe(rb, sg); ok || pan != nil {
+					return vrun.Violation("datagrams emitted for a refused message produce a message (or a panic) at the receiver", "limit:refused-but-delivered", w)
+				}
+			}
+			res.Stat("refused_at_sender", 1)
+			return res
+		}
+		order := make([]item, len(m.segs))
+		for i := range order {
+			order[i] = item{0, i}
+		}
+		switch lc.order {
+		case "reversed":
+			for l, r := 0, len(order)-1; l < r; l, r = l+1, r-1 {
+				order[l], order[r] = order[r], order[l]
+			}
+		case "shuffled":
+			c.Rng.Shuffle(len(order), func(a, b int) { order[a], order[b] = order[b], order[a] })
+		}
+		var st feedStats
+		got := []int{0}
+		if v := feedJudge(rb, []message{m}, order, got, &st, func() map[string]any { return w }); v != nil {
+			if ww, ok := v.Witness.(map[string]any); ok {
+				delete(ww, "order")
+				ww["order"] = lc.order
+				ww["buffers_held_at_the_end"] = len(held(rb))
+			}
+			v.Clause = "a message that SendTo accepts and splits into exactly 65536 segments (maxIdx 65535): " + v.Clause
+			v.FindingKey = "limit:65536-segments-accepted-by-SendTo/" + v.FindingKey
+			return *v
+		}
+		res.Stat("accepted_and_reassembled", 1)
+		res.Stat("receive_calls_judged", st.receives)
+		res.Stat("bytes_handed_up", st.handedBytes)
+		return res
+	})
+}
+
 // ---------------------------------------------------------------------------------------------------
 // expiry (injected clock)
 // ---------------------------------------------------------------------------------------------------
@@ -784,9 +890,9 @@ func TestC14Expiry(t *testing.T) {
 	total := len(tuples) * len(expiries)
 	meta := vrun.Meta{Property: "C14", Workload: "TestC14Expiry", Total: total, Exhaustive: true,
 		Rule: "Payload 4 bytes, injected clock, sequential. Case = (tuple of 1..2 segment counts with at most " + fmt.Sprint(maxTotal) + " segments, expiry E from {1ms,1s,10s,1h}). For EVERY permutation of the " +
-			"union of segments and EVERY cut 1 <= k < total: feed the first k segments (clock stepping E/4 between the first two... see below), then (a) with the clock less than E after the FIRST fed segment call RemoveExpired " +
-			"and check that completing the messages still hands up the originals (retain run), (b) advance the clock beyond E after the LAST fed segment, call RemoveExpired, check that the buffer map no longer " +
-			"holds any incomplete message and feed the remaining segments: whatever is handed up afterwards must equal an original message (forget run). Non-trivial: both runs done for every permutation and cut; distinct: (tuple, E).",
+			"union of segments and EVERY cut 1 <= k < total two runs: (a) retain run: feed the first k segments while the clock moves E/4, move it to 3E/4 after the FIRST segment, call RemoveExpired, feed the rest: " +
+			"every message must still be handed up exactly; (b) forget run: feed the first k segments, advance the clock to 1.5E after the LAST fed segment, call RemoveExpired, check that the buffer map no longer " +
+			"holds any incomplete message and feed the remaining segments: whatever is handed up afterwards must equal an original message. Non-trivial: both runs done for every permutation and cut; distinct: (tuple, E).",
 		Assumptions: append([]string{
 			"'forgotten after the expiry time': judged as 'must be gone' only once more than the expiry has passed since the LAST segment of the message arrived, and 'must still be there' only while less than the expiry has passed since its FIRST segment (the statement does not say from which segment the time runs)",
 			"'forgotten' is observed on the exported ReadBuffers.ReadBuffer map after RemoveExpired; segments arriving after the forgetting are only required not to produce a non-original message",
@@ -873,7 +979,7 @@ func TestC14Expiry(t *testing.T) {
 					forgotten += int64(len(incomplete))
 					// late remainder: nothing but originals may come out
 					for _, it := range order[k:] {
-						m, ok, _, pan := recvSafe(rb, msgs[it.m].segs[it.s])
+						m, ok, _, pan := recvSafe(rb, msgs[it.M].segs[it.S])
 						st.receives++
 						if pan != nil {
 							w := ctx()
@@ -881,12 +987,12 @@ func TestC14Expiry(t *testing.T) {
 							return vrun.Violation("Receive panics on a late segment", "expiry:panic-on-late-segment", w)
 						}
 						if ok {
-							if !bytes.Equal(m, msgs[it.m].data) {
+							if !bytes.Equal(m, msgs[it.M].data) {
 								w := ctx()
-								w["order"], w["cut"], w["handed_up"], w["original"] = order, k, hx(m), hx(msgs[it.m].data)
+								w["order"], w["cut"], w["handed_up"], w["original"] = order, k, hx(m), hx(msgs[it.M].data)
 								return vrun.Violation("segments arriving after the forgetting produce a message that is not an original", "expiry:late-segments-yield-non-original", w)
 							}
-							if incomplete[msgs[it.m].seq] {
+							if incomplete[msgs[it.M].seq] {
 								lateOriginal++
 							}
 						}
@@ -1004,7 +1110,7 @@ func TestC14Malformed(t *testing.T) {
 	total := e.Pick(600, 6000)
 	meta := vrun.Meta{Property: "C14", Workload: "TestC14Malformed", Total: total,
 		Rule: "Case = 1..3 genuine messages (real payload size, 1..6 segments, seq below 2^31) whose shuffled segments are interleaved with 1..40 bad datagrams using sequence numbers >= 2^31: " +
-			"'index beyond the announced count' (idx > maxIdx, all combinations of small/boundary values), 'count changing between segments of one sequence number', random bytes of length 8..64 with a forced garbage sequence number, " +
+			"'index beyond the announced count' (idx > maxIdx, all combinations of small/boundary values), 'count changing between segments of one sequence number', random bytes of length 8..64 (random header fields, own garbage sequence number), " +
 			"and (class dup, not judged for delivery) duplicated genuine segments at the end. Judged: no Receive call panics; a datagram whose index exceeds its own announced count is never handed up; " +
 			"every genuine message is handed up byte-exact by exactly the call that brings its last segment. Non-trivial: at least one bad datagram was given to Receive while a genuine multi-segment message was half received, and that message completed exactly; " +
 			"distinct: (bad classes, genuine segment counts).",
@@ -1039,7 +1145,14 @@ func TestC14Malformed(t *testing.T) {
 		var bads []bad
 		nb := 1 + r.Intn(40)
 		edge := []uint16{0, 1, 2, 3, 5, 6, 7, 255, 256, 0x7fff, 0x8000, 0xfffe, 0xffff}
-		gseq := func() uint32 { return 0x80000000 | uint32(r.Intn(8)) | uint32(r.Intn(2))<<30 | uint32(r.Intn(2))*0x7ffffff8 }
+		// sequence numbers of the bad datagrams: >= 2^31 (never a genuine one); every index-beyond-count datagram and every
+		// random datagram gets a number of its own (bit 8.. = running counter), the count-changing groups share one per group.
+		// (A bad datagram that shares its number with other datagrams is TestC14MalformedSameSeq's subject.)
+		gn := uint32(0)
+		gseq := func() uint32 {
+			gn++
+			return 0x80000000 | uint32(r.Intn(2))<<30 | gn<<8 | uint32(r.Intn(256))
+		}
 		for len(bads) < nb {
 			switch r.Intn(4) {
 			case 0, 1: // index beyond announced count
@@ -1062,7 +1175,7 @@ func TestC14Malformed(t *testing.T) {
 				}
 			case 3: // random bytes, only the top bit of the sequence number forced
 				d := randBytes(r, 8+r.Intn(57))
-				d[0] |= 0x80
+				binary.BigEndian.PutUint32(d[:4], gseq())
 				mx, idx := binary.BigEndian.Uint16(d[4:6]), binary.BigEndian.Uint16(d[6:8])
 				bads = append(bads, bad{d, "random-bytes", idx > mx})
 			}
@@ -1128,7 +1241,7 @@ func TestC14Malformed(t *testing.T) {
 		var dupHanded int64
 		for i := 0; i < 6; i++ {
 			it := order[r.Intn(len(order))]
-			_, ok, _, pan := recvSafe(rb, msgs[it.m].segs[it.s])
+			_, ok, _, pan := recvSafe(rb, msgs[it.M].segs[it.S])
 			if pan != nil {
 				return vrun.Violation("Receive panics on a duplicated segment", "malformed:duplicate:Receive-panics", map[string]any{"panic": fmt.Sprint(pan)})
 			}
@@ -1232,14 +1345,14 @@ func TestC14MalformedSameSeq(t *testing.T) {
 			return map[string]any{"genuine_segments": s.n, "seq": seq, "bad_datagram": hx(badD), "bad_maxIdx": s.mx, "bad_idx": s.idx, "bad_arrives_after_n_genuine": s.pos, "genuine_order": order}
 		}
 		key := func(v *vrun.Result) vrun.Result {
-			v.Clause = "an index-beyond-count datagram is not discarded: " + v.Clause
-			v.FindingKey = "malformed:index-beyond-count:same-seq:" + where + ":" + rel + ":" + inRange + "/" + v.FindingKey
+			v.Clause = "an index-beyond-count datagram is not discarded (" + rel + ", " + inRange + "): " + v.Clause
+			v.FindingKey = "malformed:index-beyond-count:same-seq:" + where
 			return *v
 		}
 		if v := feedJudge(rb, []message{m}, order[:s.pos], got, &st, ctx); v != nil {
 			return *v
 		}
-		if s.pos < s.n || s.n == 0 {
+		if s.pos < s.n {
 			mm, ok, _, pan := recvSafe(rb, badD)
 			if pan != nil {
 				w := ctx()
